@@ -163,7 +163,7 @@ def fmtList : List (Bool × Entry) → List Char
 
 def noQuoteBang (s : List Char) : Bool := s.all fun c => c ≠ '\'' && c ≠ '!'
 
-/-- A key of the main section in the spelling the pattern admits: `delta.` + lower-case letters / `-`. -/
+/-- A key of the main section in the spelling the pattern accepts: `delta.` + lower-case letters / `-`. -/
 def deltaKey (key : List Char) : Bool :=
   match stripPrefix keyPrefix.toList key with
   | some k => !k.isEmpty && k.all keyChar
